@@ -273,7 +273,12 @@ pub fn main(ctx: &Ctx) -> ! {
         st.outcomes.lock().unwrap().extend(local);
     });
     // BOM: dropped only as the first character of the stream
-    for input in ["\u{feff}<a/>", "\u{feff}", "\u{feff}\u{feff}<a>x</a>", "<a>\u{feff}</a>", "x\u{feff}"] {
+    // (a second U+FEFF where it is content: in text, in an attribute value, right after an element the tree
+    // builder pauses on, at the start of any later chunk)
+    for input in [
+        "\u{feff}<a/>", "\u{feff}", "\u{feff}\u{feff}<a>x</a>", "<a>\u{feff}</a>", "x\u{feff}", "\u{feff}<a>x\u{feff}y</a>", "\u{feff}<a>\u{feff}</a>",
+        "\u{feff}<a b='\u{feff}'/>", "\u{feff}<a><script/>\u{feff}y</a>", "<a><script/>\u{feff}y</a>", "\u{feff}<a>\u{feff}\u{feff}</a>",
+    ] {
         let rest = input.strip_prefix('\u{feff}').unwrap_or(input);
         let want = tree_sig(&run_xml_tree(&XmlCfg { discard_bom: false, ..Default::default() }, &[Feed::Chunk(rest.to_string())], true));
         for s in chunkings(input, 2, 8) {
